@@ -5,11 +5,26 @@ exactly as they were before the call", on the search model of `RreModel/C09/Mode
 after fixes F-C09, F-C10a, F-C10b, F-C10c).  Proved from the frame theorem of part A
 (`C10.grollback_restores`, used through `C09.eff_rollback`): every speculative frame the search
 opens is closed by a rollback that returns exactly the store saved at its `begin`, or by a commit.
-Quantified over every knowledge base, every strategy, every `max_depth` / `max_solutions`, every
-candidate order and sub-goal candidate function, every store with any enclosing frames.
+Quantified over every knowledge base (rules with And/Or conditions and action lists mixing `Set`,
+`Append`, `Retract` and `MethodCall`, including actions that fail half way through a rule), every
+strategy, every `max_depth` / `max_solutions`, every candidate order and sub-goal candidate
+function, every store with any enclosing frames.
 -/
 namespace C10
 open C09
+
+/-- **Every action of the backward executor is a recording write**: firing a rule — all of its
+actions (`Set`, `Append` on an absent field / an array / another value, `Retract`, `MethodCall`),
+or, when one of them fails, those before it — inside a fresh frame and rolling that frame back
+gives exactly the store the frame was opened on, data and enclosing frames. -/
+theorem rule_firing_rolls_back (r : Rule) (st : Store) :
+    gstep (fire r (gstep st .begin)).2 .rollback = st :=
+  eff_rollback (eff_fire r (gstep st .begin))
+
+/-- … and committing it instead leaves a store that an enclosing frame of the caller still undoes -/
+theorem rule_firing_commit_rolls_back (r : Rule) (st : Store) :
+    gstep (gstep (fire r (gstep (gstep st .begin) .begin)).2 .commit) .rollback = st :=
+  eff_rollback (eff_commit (eff_fire r (gstep (gstep st .begin) .begin)))
 
 /-- the well-bracketed-effect invariant at query level -/
 theorem query_effect (kb : List Rule) (strategy : Strategy) (maxDepth maxSol : Nat)
@@ -70,9 +85,9 @@ theorem query_inside_frame_rolls_back (kb : List Rule) (strategy : Strategy) (ma
 /-! Non-vacuity: a failing query whose proof attempt derives intermediate facts (two sub-goals
 proven, parent rule concludes the wrong value) — the F-C10c shape. -/
 def exKbB : List Rule :=
-  [ ⟨.atom ⟨6, .eq, .num 1⟩, [(0, .bool true)]⟩,
-    ⟨.atom ⟨6, .eq, .num 1⟩, [(1, .bool true)]⟩,
-    ⟨.and (.atom ⟨0, .eq, .bool true⟩) (.atom ⟨1, .eq, .bool true⟩), [(5, .bool false)]⟩ ]
+  [ ⟨.atom ⟨6, .eq, .num 1⟩, [(0, .bool true)], []⟩,
+    ⟨.atom ⟨6, .eq, .num 1⟩, [(1, .bool true)], []⟩,
+    ⟨.and (.atom ⟨0, .eq, .bool true⟩) (.atom ⟨1, .eq, .bool true⟩), [(5, .bool false)], []⟩ ]
 def exGoalB : Atom := ⟨5, .eq, .bool true⟩
 def exStoreB : Store := ⟨fun k => if k = 6 then some (.num 1) else none, []⟩
 def exSubB (a : Atom) : List Nat := if a.field = 0 then [0] else if a.field = 1 then [1] else []
@@ -85,6 +100,53 @@ example : (match candStep ⟨exKbB, 1, exSubB⟩ true (searchN rbCode ⟨exKbB, 
     | .cont _ stX _ => stX.data 0 == some (.bool true) && stX.data 1 == some (.bool true) && stX.data 5 == some (.bool false)
     | .ret _ => false) = true := by decide
 -- BFS: R: X == 1 ⇒ G := false, query G == true (F-C10b witness): not provable and G stays absent
-example : (query [⟨.atom ⟨6, .eq, .num 1⟩, [(5, .bool false)]⟩] .bfs 3 1 (fun _ => []) exGoalB [0] exStoreB).store.data 5 = none := by decide
+example : (query [⟨.atom ⟨6, .eq, .num 1⟩, [(5, .bool false)], []⟩] .bfs 3 1 (fun _ => []) exGoalB [0] exStoreB).store.data 5 = none := by decide
+
+/-! Non-vacuity for the other actions: `Approve: Check && Signed ⇒ Approved`,
+`RunCheck: X == 1 ⇒ Check := true, Trail += "ok", retract(Log), Car.setSpeed(2)` — `Signed` is underivable, so the
+query fails after RunCheck fired: the appended array (field absent before), the retracted fact and
+the updated object are all back. -/
+def exKbC : List Rule :=
+  [ ⟨.and (.atom ⟨0, .eq, .bool true⟩) (.atom ⟨7, .eq, .bool true⟩), [(5, .bool true)], []⟩,
+    ⟨.atom ⟨6, .eq, .num 1⟩, [(0, .bool true)], [.append 8 (.str "ok"), .retract 3, .call 4 2]⟩ ]
+def exStoreC : Store :=
+  ⟨fun k => if k = 6 then some (.num 1) else if k = 3 then some (.str "log") else if k = 4 then some (.obj 0) else none, []⟩
+def exSubC (a : Atom) : List Nat := if a.field = 0 then [1] else []
+
+example : (query exKbC .dfs 3 1 exSubC exGoalB [0] exStoreC).provable = false := by decide
+example : (List.range 9).map (query exKbC .dfs 3 1 exSubC exGoalB [0] exStoreC).store.data =
+    (List.range 9).map exStoreC.data := by decide
+-- RunCheck really fired inside the candidate's frame: array created, fact retracted, object updated
+example : (match candStep ⟨exKbC, 1, exSubC⟩ true (searchN rbCode ⟨exKbC, 1, exSubC⟩ 3 false) exGoalB 0 false exStoreC 0 with
+    | .cont _ stX _ => stX.data 0 == some (.bool true) && stX.data 8 == some (.arr [.str "ok"]) && stX.data 3 == none
+                       && stX.data 4 == some (.obj 2)
+    | .ret _ => false) = true := by decide
+-- a failing action (`setSpeed` on an absent object) after the rule already wrote: `fire` reports the
+-- failure with the partial writes in place, and the frame takes them back
+example : (fire ⟨.atom ⟨6, .eq, .num 1⟩, [(0, .bool true)], [.append 8 (.num 1), .call 9 1, .set 5 (.bool true)]⟩ exStoreC).1 = false := by decide
+example : (fire ⟨.atom ⟨6, .eq, .num 1⟩, [(0, .bool true)], [.append 8 (.num 1), .call 9 1, .set 5 (.bool true)]⟩ exStoreC).2.data 8
+    = some (.arr [.num 1]) := by decide
+
+/-! The "interfering sub-proof" knowledge base: `Finish: (Main || Spare) && Permit ⇒ Goal`,
+`MainWay: A && B ⇒ Main`, `OpenA ⇒ A`, `OpenB ⇒ B, A := false`, `SpareWay ⇒ Spare`.  MainWay's
+conditions are proven one after the other but do not hold together (its retry does not fire), then
+Spare is derived, then the underivable Permit fails Finish: nothing of it stays. -/
+def exKbD : List Rule :=
+  [ ⟨.and (.or (.atom ⟨2, .eq, .bool true⟩) (.atom ⟨3, .eq, .bool true⟩)) (.atom ⟨7, .eq, .bool true⟩), [(5, .bool true)], []⟩,
+    ⟨.and (.atom ⟨0, .eq, .bool true⟩) (.atom ⟨1, .eq, .bool true⟩), [(2, .bool true)], []⟩,
+    ⟨.atom ⟨6, .eq, .num 1⟩, [(0, .bool true)], []⟩,
+    ⟨.atom ⟨6, .eq, .num 1⟩, [(1, .bool true), (0, .bool false)], []⟩,
+    ⟨.atom ⟨6, .eq, .num 1⟩, [(3, .bool true)], []⟩ ]
+def exSubD (a : Atom) : List Nat :=
+  if a.field = 0 then [2, 3] else if a.field = 1 then [3] else if a.field = 2 then [1] else if a.field = 3 then [4] else []
+
+example : (query exKbD .dfs 5 1 exSubD exGoalB [0] exStoreB).provable = false := by decide
+example : (List.range 8).map (query exKbD .dfs 5 1 exSubD exGoalB [0] exStoreB).store.data =
+    (List.range 8).map exStoreB.data := by decide
+example : (query exKbD .dfs 5 1 exSubD exGoalB [0] exStoreB).store.frames = [] := by decide
+-- Spare was derived (and A reset, B set) inside Finish's frame before Permit failed
+example : (match candStep ⟨exKbD, 1, exSubD⟩ true (searchN rbCode ⟨exKbD, 1, exSubD⟩ 5 false) exGoalB 0 false exStoreB 0 with
+    | .cont _ stX _ => stX.data 3 == some (.bool true) && stX.data 2 == none && stX.data 0 == none && stX.data 1 == none
+    | .ret _ => false) = true := by decide
 
 end C10
